@@ -211,6 +211,9 @@ pub struct Cursor<'a, S: Storage + ?Sized> {
     current_page: u32,
     current_index: usize,
     exhausted: bool,
+    /// Leaf-to-leaf hops taken by `advance`; bounded by the page count so that a
+    /// corrupted `next_leaf` chain forming a cycle is reported instead of followed for ever.
+    leaf_hops: u32,
 }
 
 pub struct BTreeReader<'a> {
@@ -246,6 +249,7 @@ impl<'a> BTreeReader<'a> {
                         current_page,
                         current_index: 0,
                         exhausted,
+                        leaf_hops: 0,
                     });
                 }
                 PageType::BTreeInterior => {
@@ -283,6 +287,7 @@ impl<'a> BTreeReader<'a> {
                             current_page,
                             current_index: 0,
                             exhausted: true,
+                            leaf_hops: 0,
                         });
                     }
                     return Ok(Cursor {
@@ -291,6 +296,7 @@ impl<'a> BTreeReader<'a> {
                         current_page,
                         current_index: cell_count - 1,
                         exhausted: false,
+                        leaf_hops: 0,
                     });
                 }
                 PageType::BTreeInterior => {
@@ -310,6 +316,7 @@ impl<'a> BTreeReader<'a> {
         use crate::btree::leaf::SearchResult;
 
         let mut current_page = self.root_page;
+        let mut leaf_hops = 0u32;
         loop {
 
             let page_data = self.storage.page(current_page)?;
@@ -326,6 +333,13 @@ impl<'a> BTreeReader<'a> {
                         SearchResult::NotFound(_idx) => {
                             let next_leaf = leaf.next_leaf();
                             if next_leaf != 0 {
+                                leaf_hops += 1;
+                                ensure!(
+                                    leaf_hops <= self.storage.page_count(),
+                                    "corrupt next_leaf chain: followed {} leaf links in a file of {} pages",
+                                    leaf_hops,
+                                    self.storage.page_count()
+                                );
                                 current_page = next_leaf;
                                 continue;
                             }
@@ -371,6 +385,7 @@ impl<'a> BTreeReader<'a> {
                         current_page,
                         current_index: index,
                         exhausted,
+                        leaf_hops: 0,
                     });
                 }
                 PageType::BTreeInterior => {
@@ -1270,6 +1285,7 @@ impl<'a, S: Storage> BTree<'a, S> {
                         current_page,
                         current_index: 0,
                         exhausted,
+                        leaf_hops: 0,
                     });
                 }
                 PageType::BTreeInterior => {
@@ -1311,6 +1327,7 @@ impl<'a, S: Storage> BTree<'a, S> {
                         current_page,
                         current_index: index,
                         exhausted,
+                        leaf_hops: 0,
                     });
                 }
                 PageType::BTreeInterior => {
@@ -1345,6 +1362,7 @@ impl<'a, S: Storage> BTree<'a, S> {
                             current_page,
                             current_index: 0,
                             exhausted: true,
+                            leaf_hops: 0,
                         });
                     }
                     return Ok(Cursor {
@@ -1353,6 +1371,7 @@ impl<'a, S: Storage> BTree<'a, S> {
                         current_page,
                         current_index: cell_count - 1,
                         exhausted: false,
+                        leaf_hops: 0,
                     });
                 }
                 PageType::BTreeInterior => {
@@ -1419,6 +1438,16 @@ impl<'a, S: Storage + ?Sized> Cursor<'a, S> {
             );
         }
 
+        self.leaf_hops += 1;
+        if self.leaf_hops > page_count {
+            bail!(
+                "corrupt next_leaf chain: followed {} leaf links in a file of {} pages (cycle through page {})",
+                self.leaf_hops,
+                page_count,
+                next_page
+            );
+        }
+
         self.storage.prefetch_pages(next_page + 1, 2);
 
         self.current_page = next_page;
@@ -1449,6 +1478,7 @@ impl<'a, S: Storage + ?Sized> Cursor<'a, S> {
             Some((page_no, last_index)) => {
                 self.current_page = page_no;
                 self.current_index = last_index;
+                self.leaf_hops = self.leaf_hops.saturating_sub(1);
                 Ok(true)
             }
             None => {
